@@ -2,15 +2,15 @@ import PyaModel.Proofs.C17
 /-!
 # Props/C17 — format-string diagnostics agree with CPython's formatter
 
-Property theorems only. Model: `Pya.pyaPercent` / `Pya.pyaFormat` (Core/Format.lean, following
-`pyanalyze/format_strings.py` and `implementation.py:_str_format_impl`). Spec: `Pya.cpyPercent` /
-`Pya.cpyFormat` (Spec/CpyFormat.lean, CPython 3.12's `%` formatter for str and bytes and
+Property theorems only. Model: `Pya.C17.pyaPercent` / `Pya.C17.pyaFormat` (Core/Format.lean, following
+`pyanalyze/format_strings.py` and `implementation.py:_str_format_impl`). Spec: `Pya.C17.cpyPercent` /
+`Pya.C17.cpyFormat` (Spec/CpyFormat.lean, CPython 3.12's `%` formatter for str and bytes and
 `str.format`, at the granularity "raises or not; type of the result").
 
 All theorems quantify over *every* template (any list of characters), str and bytes, and every
 argument of the modelled universe (literal scalars, tuples of any length, dicts of any size).
 -/
-namespace Pya
+namespace Pya.C17
 
 /-! ## `%` formatting -/
 
@@ -20,23 +20,18 @@ def percent_reports_if_raises_full : Prop :=
   ∀ (b : Bool) (t : List Char) (a : Arg), cpyPercent b t a = .raises → (pyaPercent b t a).reports = true
 
 /-- **Full statement, completeness half** (not asserted — false): whenever CPython formats
-successfully, every message is one of the documented lint rules and nothing crashes. -/
+successfully, every message is one of the documented lint rules. -/
 def percent_silent_if_ok_full : Prop :=
   ∀ (b : Bool) (t : List Char) (a : Arg) (ty : RTy), a.wf = true → cpyPercent b t a = .ok ty →
-    (∀ e ∈ (pyaPercent b t a).errs, e.lintOnly = true) ∧ (pyaPercent b t a).crash = false
+    ∀ e ∈ (pyaPercent b t a).errs, e.lintOnly = true
 
-/-- **Full statement, result type** (not asserted — false): the inferred type is the type of the
-actual result. -/
-def percent_result_type_full : Prop :=
-  ∀ (b : Bool) (t : List Char) (a : Arg) (ty : RTy), cpyPercent b t a = .ok ty → (pyaPercent b t a).ty = ty
-
-/-- **C17, `%`, soundness (partial).** For every template and argument outside the five "missed
-error" classes — `%o/%x/%X` applied to a float, a `(` inside a mapping key, a dict literal with a
-non-`str` key (str templates), a bytes template with mapping keys and a dict, a width/precision
-numeral beyond CPython's limits — if CPython raises while formatting, pyanalyze reports at least
-one `bad_format_string` message (or crashes visibly). -/
+/-- **C17, `%`, soundness (partial).** For every template and argument outside the four "missed
+error" classes — a `(` inside a mapping key, a dict literal with a non-`str` key (str templates),
+a bytes template with mapping keys and a dict, a width/precision numeral beyond CPython's limits —
+if CPython raises while formatting, pyanalyze reports at least one `bad_format_string` message.
+(The former class `hexFloat` was repaired in /repo a9a8c6b and is no longer excluded.) -/
 theorem percent_reports_if_raises_partial (b : Bool) (t : List Char) (a : Arg)
-    (h1 : D17_hexFloat t a = false) (h2 : D17_parenKey t = false)
+    (h2 : D17_parenKey t = false)
     (h3 : D17_nonStrKey b t a = false) (h4 : D17_bytesMapping b t a = false)
     (h5 : D17_hugeWidthPrec t = false)
     (hr : cpyPercent b t a = .raises) : (pyaPercent b t a).reports = true := by
@@ -44,61 +39,55 @@ theorem percent_reports_if_raises_partial (b : Bool) (t : List Char) (a : Arg)
   | true => rfl
   | false =>
     exfalso
-    simp only [POut.reports, Bool.or_eq_false_iff, Bool.not_eq_false', List.isEmpty_iff] at hrep
-    have := percent_silent_ok b t a hrep.1 hrep.2 h1 h2 h3 h4 h5
+    simp only [POut.reports, Bool.not_eq_false', List.isEmpty_iff] at hrep
+    have := percent_silent_ok b t a hrep h2 h3 h4 h5
     rw [hr] at this
     cases this
 
 /-- **C17, `%`, completeness (partial).** For every template and well-formed argument (dict keys
-pairwise distinct) outside the seven "false report" classes — `%c` with an int in
+pairwise distinct) outside the six "false report" classes — `%c` with an int in
 `range(256, 0x110000)` on a str template, `.` without digits, an empty mapping key, a `(` inside a
-mapping key, the `None`-key crash, a `%%`-only template applied to a mapping, a bytes template with
-mapping keys and a dict — if CPython formats successfully then every message pyanalyze emits is
-one of its two documented stricter lint rules (`noSpecs`, `combine`) and it does not crash. -/
+mapping key, a `%%`-only template applied to a mapping, a bytes template with mapping keys and a
+dict — if CPython formats successfully then every message pyanalyze emits is one of its two
+documented stricter lint rules (`noSpecs`, `combine`). (The former class `mixedKeyCrash` was
+repaired in /repo cf8a3b3: the checker no longer crashes, so no such hypothesis is needed.) -/
 theorem percent_silent_if_ok_partial (b : Bool) (t : List Char) (a : Arg) (ty : RTy)
     (hwf : a.wf = true)
     (d1 : D17_cRangeStr b t a = false) (d2 : D17_dotNoDigits t = false)
     (d3 : D17_emptyKey t = false) (d4 : D17_parenKey t = false)
-    (d5 : D17_mixedKeyCrash b t a = false) (d6 : D17_pctOnlyMapping b t a = false)
-    (d7 : D17_bytesMapping b t a = false)
+    (d6 : D17_pctOnlyMapping b t a = false) (d7 : D17_bytesMapping b t a = false)
     (hok : cpyPercent b t a = .ok ty) :
-    (∀ e ∈ (pyaPercent b t a).errs, e.lintOnly = true) ∧ (pyaPercent b t a).crash = false :=
-  percent_ok_lint b t a ty hwf hok d1 d2 d3 d4 d5 d6 d7
+    ∀ e ∈ (pyaPercent b t a).errs, e.lintOnly = true :=
+  percent_ok_lint b t a ty hwf hok d1 d2 d3 d4 d6 d7
 
-/-- **C17, `%`, result type (partial).** Outside the crash class the inferred type of
-`template % arg` is the type of the actual result (`str` for a str template, `bytes` for a bytes
-template), for every template and argument on which CPython succeeds. -/
-theorem percent_result_type_partial (b : Bool) (t : List Char) (a : Arg) (ty : RTy)
-    (d5 : D17_mixedKeyCrash b t a = false) (hok : cpyPercent b t a = .ok ty) :
-    (pyaPercent b t a).ty = ty := by
-  have hc : (pyaPercent b t a).crash = false := d5
-  have hty : (pyaPercent b t a).ty = if b then .bytes else .str := by
-    simp only [pyaPercent] at hc ⊢
-    simp [hc]
+/-- **C17, `%`, result type — full strength.** For every template, str or bytes, and every
+argument on which CPython succeeds, the inferred type of `template % arg` is the type of the
+actual result. (Partial before cf8a3b3, when the crash class inferred `Any[error]`.) -/
+theorem percent_result_type (b : Bool) (t : List Char) (a : Arg) (ty : RTy)
+    (hok : cpyPercent b t a = .ok ty) : (pyaPercent b t a).ty = ty := by
   unfold cpyPercent at hok
   split at hok
   · cases hok
   · split at hok
-    · simp only [Outcome.ok.injEq] at hok; rw [hty, hok]
+    · simp only [Outcome.ok.injEq] at hok; rw [← hok]; rfl
     · cases hok
 
-/-- In the silent case CPython's result has exactly the template's type — the two halves
-combined: outside all classes, "nothing but lint is reported" ⇔ "CPython succeeds". -/
+/-- The two halves combined: outside all classes, and when no lint rule fires, "nothing is
+reported" ⇔ "CPython succeeds" (with the template's type). -/
 theorem percent_iff_partial (b : Bool) (t : List Char) (a : Arg) (hwf : a.wf = true)
-    (h1 : D17_hexFloat t a = false) (h2 : D17_parenKey t = false)
+    (h2 : D17_parenKey t = false)
     (h3 : D17_nonStrKey b t a = false) (h4 : D17_bytesMapping b t a = false)
     (h5 : D17_hugeWidthPrec t = false)
     (d1 : D17_cRangeStr b t a = false) (d2 : D17_dotNoDigits t = false)
-    (d3 : D17_emptyKey t = false) (d5 : D17_mixedKeyCrash b t a = false)
-    (d6 : D17_pctOnlyMapping b t a = false)
+    (d3 : D17_emptyKey t = false) (d6 : D17_pctOnlyMapping b t a = false)
     (hnolint : ∀ e ∈ (pyaPercent b t a).errs, e.lintOnly = false) :
     (pyaPercent b t a).reports = false ↔ cpyPercent b t a = .ok (if b then .bytes else .str) := by
   constructor
   · intro hrep
-    simp only [POut.reports, Bool.or_eq_false_iff, Bool.not_eq_false', List.isEmpty_iff] at hrep
-    exact percent_silent_ok b t a hrep.1 hrep.2 h1 h2 h3 h4 h5
+    simp only [POut.reports, Bool.not_eq_false', List.isEmpty_iff] at hrep
+    exact percent_silent_ok b t a hrep h2 h3 h4 h5
   · intro hok
-    obtain ⟨hl, hc⟩ := percent_ok_lint b t a _ hwf hok d1 d2 d3 h2 d5 d6 h4
+    have hl := percent_ok_lint b t a _ hwf hok d1 d2 d3 h2 d6 h4
     have : (pyaPercent b t a).errs = [] := by
       cases he : (pyaPercent b t a).errs with
       | nil => rfl
@@ -106,15 +95,29 @@ theorem percent_iff_partial (b : Bool) (t : List Char) (a : Arg) (hwf : a.wf = t
         have h1 := hl e (by simp [he])
         have h2 := hnolint e (by simp [he])
         rw [h1] at h2; cases h2
-    simp [POut.reports, this, hc]
+    simp [POut.reports, this]
+
+/-! ### Regression theorems for the two repaired classes -/
+
+/-- `'%x' % 1.5` (former class `hexFloat`, repaired by a9a8c6b): CPython raises TypeError and the
+model now reports "%x conversion specifier accepts integers". -/
+theorem percent_regression_hexFloat :
+    cpyPercent false ['%', 'x'] (.sc .float) = .raises ∧
+    (pyaPercent false ['%', 'x'] (.sc .float)).errs = [.intOnly] ∧
+    (pyaPercent true ['%', 'o'] (.tup [.sc .float])).errs = [.intOnly] ∧
+    (pyaPercent false ['%', 'X'] (.sc (.bool true))).errs = [] := by decide
+
+/-- `'%s%(a)s' % {'a': 1}` (former class `mixedKeyCrash`, repaired by cf8a3b3): CPython returns a
+str; the model emits only the `combine` lint and infers `str`. With a missing key the ordinary
+"No value specified" message is produced. -/
+theorem percent_regression_mixedKey :
+    cpyPercent false ['%', 's', '%', '(', 'a', ')', 's'] (.dict [(.str ['a'], .sc (.int 1))]) = .ok .str ∧
+    (pyaPercent false ['%', 's', '%', '(', 'a', ')', 's'] (.dict [(.str ['a'], .sc (.int 1))])).errs = [.combine] ∧
+    (pyaPercent false ['%', 's', '%', '(', 'a', ')', 's'] (.dict [(.str ['a'], .sc (.int 1))])).ty = .str ∧
+    (pyaPercent false ['%', 's', '%', '(', 'b', ')', 's'] (.dict [(.str ['a'], .sc (.int 1))])).errs
+      = [.combine, .missingKeys] := by decide
 
 /-! ### Witnesses: the full statements are false on the pinned tree (one per exception class) -/
-
-/-- `'%x' % 1.5` — CPython: TypeError; pyanalyze: silent. -/
-theorem percent_witness_hexFloat :
-    cpyPercent false ['%', 'x'] (.sc .float) = .raises ∧
-    (pyaPercent false ['%', 'x'] (.sc .float)).reports = false ∧
-    D17_hexFloat ['%', 'x'] (.sc .float) = true := by decide
 
 /-- `'%(()d' % {'(': 1}` — CPython: ValueError (incomplete format key); pyanalyze: silent. -/
 theorem percent_witness_parenKey_miss :
@@ -166,33 +169,22 @@ theorem percent_witness_emptyKey :
     (pyaPercent false ['%', '(', ')', 's'] (.dict [(.str [], .sc (.int 1))])).errs.contains .badSpec = true ∧
     D17_emptyKey ['%', '(', ')', 's'] = true := by decide
 
-/-- `'%s%(a)s' % {'a': 1}` — CPython: `"{'a': 1}1"` (a str); pyanalyze: lint message, then an
-internal error, and the inferred type is `Any[error]`. -/
-theorem percent_witness_mixedKeyCrash :
-    cpyPercent false ['%', 's', '%', '(', 'a', ')', 's'] (.dict [(.str ['a'], .sc (.int 1))]) = .ok .str ∧
-    (pyaPercent false ['%', 's', '%', '(', 'a', ')', 's'] (.dict [(.str ['a'], .sc (.int 1))])).crash = true ∧
-    (pyaPercent false ['%', 's', '%', '(', 'a', ')', 's'] (.dict [(.str ['a'], .sc (.int 1))])).ty = .anyError ∧
-    D17_mixedKeyCrash false ['%', 's', '%', '(', 'a', ')', 's'] (.dict [(.str ['a'], .sc (.int 1))]) = true := by
-  decide
-
 /-- `'%%' % {'a': 1}` — CPython: `'%'`; pyanalyze: "too many arguments". -/
 theorem percent_witness_pctOnlyMapping :
     cpyPercent false ['%', '%'] (.dict [(.str ['a'], .sc (.int 1))]) = .ok .str ∧
     (pyaPercent false ['%', '%'] (.dict [(.str ['a'], .sc (.int 1))])).errs = [.tooMany] ∧
     D17_pctOnlyMapping false ['%', '%'] (.dict [(.str ['a'], .sc (.int 1))]) = true := by decide
 
-/-- Hence none of the three full statements holds. -/
+/-- Hence neither of the two full statements holds. -/
 theorem percent_full_statements_false :
-    ¬ percent_reports_if_raises_full ∧ ¬ percent_silent_if_ok_full ∧ ¬ percent_result_type_full := by
-  refine ⟨fun h => ?_, fun h => ?_, fun h => ?_⟩
-  · have := h false ['%', 'x'] (.sc .float) percent_witness_hexFloat.1
-    rw [percent_witness_hexFloat.2.1] at this; cases this
-  · have := (h false ['%', 'c'] (.sc (.int 300)) .str rfl percent_witness_cRangeStr.1).1
+    ¬ percent_reports_if_raises_full ∧ ¬ percent_silent_if_ok_full := by
+  refine ⟨fun h => ?_, fun h => ?_⟩
+  · have := h false _ _ percent_witness_nonStrKey.1
+    rw [percent_witness_nonStrKey.2.1] at this; cases this
+  · have := h false ['%', 'c'] (.sc (.int 300)) .str rfl percent_witness_cRangeStr.1
     rw [percent_witness_cRangeStr.2.1] at this
     have := this .cRange (by simp)
     cases this
-  · have := h false _ _ .str percent_witness_mixedKeyCrash.1
-    rw [percent_witness_mixedKeyCrash.2.2.1] at this; cases this
 
 /-! ### Non-vacuity: the hypotheses are met by non-trivial inputs, and both verdicts occur -/
 
@@ -200,9 +192,9 @@ theorem percent_full_statements_false :
 example :
     let t := ['%', '-', '5', 'd', '|', '%', 's']
     let a := Arg.tup [.sc (.int 3), .sc (.str 2)]
-    D17_hexFloat t a = false ∧ D17_parenKey t = false ∧ D17_nonStrKey false t a = false ∧
+    D17_parenKey t = false ∧ D17_nonStrKey false t a = false ∧
     D17_bytesMapping false t a = false ∧ D17_hugeWidthPrec t = false ∧ D17_cRangeStr false t a = false ∧
-    D17_dotNoDigits t = false ∧ D17_emptyKey t = false ∧ D17_mixedKeyCrash false t a = false ∧
+    D17_dotNoDigits t = false ∧ D17_emptyKey t = false ∧
     D17_pctOnlyMapping false t a = false ∧ a.wf = true ∧
     cpyPercent false t a = .ok .str ∧ (pyaPercent false t a).reports = false := by decide
 
@@ -210,7 +202,7 @@ example :
 example :
     let t := ['%', 'd']
     let a := Arg.sc (.str 2)
-    D17_hexFloat t a = false ∧ D17_parenKey t = false ∧ D17_nonStrKey false t a = false ∧
+    D17_parenKey t = false ∧ D17_nonStrKey false t a = false ∧
     D17_bytesMapping false t a = false ∧ D17_hugeWidthPrec t = false ∧
     cpyPercent false t a = .raises ∧ (pyaPercent false t a).errs = [.numeric] := by decide
 
@@ -220,7 +212,7 @@ example :
     let t := ['%', '%', '%', '(', 'a', ')', 's']
     let a := Arg.dict [(.str ['a'], .sc (.int 1))]
     D17_cRangeStr false t a = false ∧ D17_dotNoDigits t = false ∧ D17_emptyKey t = false ∧
-    D17_parenKey t = false ∧ D17_mixedKeyCrash false t a = false ∧ D17_pctOnlyMapping false t a = false ∧
+    D17_parenKey t = false ∧ D17_pctOnlyMapping false t a = false ∧
     D17_bytesMapping false t a = false ∧ a.wf = true ∧
     cpyPercent false t a = .ok .str ∧ (pyaPercent false t a).errs = [.combine] := by decide
 
@@ -228,7 +220,7 @@ example :
 example :
     let t := ['%', 'c', '%', 'b']
     let a := Arg.tup [.sc (.int 65), .sc (.bytes 2)]
-    D17_hexFloat t a = false ∧ D17_bytesMapping true t a = false ∧ D17_pctOnlyMapping true t a = false ∧
+    D17_bytesMapping true t a = false ∧ D17_pctOnlyMapping true t a = false ∧
     cpyPercent true t a = .ok .bytes ∧ (pyaPercent true t a).reports = false ∧
     (pyaPercent true t a).ty = .bytes := by decide
 
@@ -355,4 +347,4 @@ example :
     fmtPlain t = true ∧ D17_fmtAutoManual t = false ∧ cpyFormat t 0 [] = false ∧
     pyaFormat t 0 [] = [.parse .single] := by decide
 
-end Pya
+end Pya.C17
